@@ -171,6 +171,69 @@ def tlc_cached(name, module, cfg, workers=12, timeout=3600, simulate=None, tlc_s
     return outp, stats
 
 
+def pipe_gz_to(cmd, paths, timeout=3600):
+    """streams the (gz) TLC outputs into a harness binary; returns (findings, summary)"""
+    import threading
+    p = subprocess.Popen(cmd, stdin=subprocess.PIPE, stdout=subprocess.PIPE, stderr=subprocess.PIPE, env=ENV)
+    out_chunks, err_chunks = [], []
+    t1 = threading.Thread(target=lambda: out_chunks.append(p.stdout.read()))
+    t2 = threading.Thread(target=lambda: err_chunks.append(p.stderr.read()))
+    t1.start(); t2.start()
+    try:
+        for path in paths:
+            opener = gzip.open if path.endswith(".gz") else open
+            with opener(path, "rb") as f:
+                while True:
+                    chunk = f.read(1 << 20)
+                    if not chunk:
+                        break
+                    p.stdin.write(chunk)
+        p.stdin.close()
+    except BrokenPipeError:
+        pass
+    t1.join(); t2.join()
+    rc = p.wait()
+    if rc != 0:
+        raise ToolError(f"{cmd[0]} failed rc={rc}: {err_chunks[0].decode(errors='replace')[-2000:]}")
+    findings, summary = [], None
+    for line in out_chunks[0].decode().splitlines():
+        if not line.strip():
+            continue
+        r = json.loads(line)
+        if r.get("summary"):
+            summary = r
+        else:
+            findings.append(r)
+    if summary is None:
+        raise ToolError(f"{cmd[0]} produced no summary")
+    return findings, summary
+
+
+def tlc_validate_trace(trace_path, module, cfg, timeout=1200):
+    """TLC as trace validator.  Returns (accepted, rejected_at_event_index_or_None, event, states)."""
+    env = dict(ENV)
+    env["TRACE_FILE"] = trace_path
+    env["JAVA_TOOL_OPTIONS"] = "-Xss1g -Dtlc2.tool.queue.IStateQueue=StateDeque"
+    meta = os.path.join(OUT, "tlc_trace_meta_%d" % os.getpid())
+    cmd = ["timeout", str(timeout), "tlc", "-workers", "1", "-metadir", meta, "-cleanup", "-noGenerateSpecTE",
+           "-config", cfg, module + ".tla"]
+    r = subprocess.run(cmd, cwd=SPEC, env=env, stdout=subprocess.PIPE, stderr=subprocess.STDOUT)
+    import shutil
+    shutil.rmtree(meta, ignore_errors=True)
+    text = r.stdout.decode(errors="replace")
+    m = re.search(r"(\d+) states generated, (\d+) distinct states found", text)
+    states = int(m.group(2)) if m else 0
+    rej = re.search(r'<<"TRACE-REJECTED", (\d+), "(.*)">>', text)
+    if rej:
+        ev = rej.group(2).replace('\\"', '"').replace("\\\\", "\\")
+        return False, int(rej.group(1)), ev, states
+    if "Model checking completed. No error has been found." in text and r.returncode == 0:
+        return True, None, None, states
+    if "Invariant" in text and "is violated" in text:
+        return False, -1, text[-1500:], states
+    raise ToolError("trace validation did not complete:\n" + text[-2500:])
+
+
 def load_known():
     p = os.path.join(ROOT, "known_findings.json")
     if not os.path.exists(p):
